@@ -321,6 +321,29 @@ func (s *Sim) LiveLibTasks() []*Task {
 	return out
 }
 
+// LiveLibDescendants returns the library tasks that are not done and that are
+// one of the tasks in roots or were started, directly or through other tasks,
+// by one of them.
+func (s *Sim) LiveLibDescendants(roots map[int]bool) []*Task {
+	var out []*Task
+	for _, t := range s.tasks {
+		if !t.Lib || t.state == stDone {
+			continue
+		}
+		for a := t; a != nil; {
+			if roots[a.ID] {
+				out = append(out, t)
+				break
+			}
+			if a.Parent < 0 || a.Parent >= len(s.tasks) {
+				break
+			}
+			a = s.tasks[a.Parent]
+		}
+	}
+	return out
+}
+
 //go:norace
 func (s *Sim) lookup(g uintptr) *Task {
 	raceDisable()
